@@ -29,6 +29,7 @@ CHILD = ("#!%s\nimport os,sys\nspec=sys.argv[1].split(':')\n"
 INNER = ("calls=[]\nplan=[]\n"
          "def interesting(args, prefix):\n"
          "    calls.append(list(args))\n"
+         "    del args[:]          # a test that consumes its argument list (pops its options): every run gets its own list\n"
          "    return plan[len(calls)-1] if len(calls)-1 < len(plan) else False\n")
 
 
@@ -177,6 +178,10 @@ def diff_cases(ctx, thorough):
     pairs = list(itertools.product(behaviours, repeat=2))
     if not thorough:
         pairs = [p for i, p in enumerate(pairs) if i % 4 == 0 or p[0] == p[1] or p[0][1:] == p[1][1:]]
+    # outputs that differ in nothing but their line terminators are different outputs
+    ends = [(0, b"a\n", b""), (0, b"a", b""), (0, b"a\r\n", b""), (0, b"a\rb\n", b""), (0, b"a\nb\n", b""), (0, b"", b"e\n"), (0, b"", b"e"),
+            (0, b"a\n\n", b""), (0, b"a\x0c", b"")]
+    pairs += [(x, y) for x in ends for y in ends]
     for a, b in pairs:
         sa, sb = (f"{x[0] if x[0] >= 0 else 'S' + str(-x[0])}:{x[1].hex()}:{x[2].hex()}" for x in (a, b))
         want = a != b
